@@ -206,6 +206,10 @@ func init() {
 			x.Quiesce(12 * time.Second)
 			checkNoLeak(x, "hashicorp/go-plugin.")
 		},
+		Conform: func() []explore.Params {
+			return []explore.Params{{"kind": "mux", "hist": "Dh7"}, {"kind": "grpc", "hist": "Ap7"}, {"kind": "mux", "hist": "Dh7,Dh7"}}
+		},
+		ConformWait: 60 * time.Second,
 		Instances: func(tier string) []explore.Params {
 			var out []explore.Params
 			evs := []string{"Dh7", "Dp7", "Ah7", "Ap7"}
